@@ -54,6 +54,13 @@ CLAIMED = {
    text="TLC enumerates the bounded type universe (all leaves, every collection/mapping spelling, fixed tuples, unions, 15 synthesised classes of every flavour incl. recursive and same-named ones, wrapper chains) and emits each type; for each the real unmarshal is called on a junk pool and on every single-step corruption of real wire forms, and every returned value is checked by the TLA+ structural type checker Conf (runtime class at every position, arity, required keys, Literal/Enum membership), evaluated by TLC on the recorded events.",
    ref="DESIGN.md section 4 C03",
    note="Trusted: TLC; the projection of values to terms (harness/terms.py); Conf as the meaning of 'conforms'. Universe bounded to depth 2 with representative members; corruptions computed by the harness."),
+ "C13": dict(
+   engine="Wire",
+   technique="TLA+ specs Terms.tla + Wire.tla (Exact: value made of exactly the annotated classes); TLC-enumerated universe, pool values and junk fed to the real unmarshal, TLC trace spec Wire_Trace.tla checks r = v (pass-through) and u(u(x)) = u(x) (idempotence)",
+   level="model_checking",
+   text="For every union-free/Optional-only type of the TLC-enumerated universe, adversarial valid values (text-pool strings, 2-element first members, str-mixin enum members, named tuples with pair first fields) are passed to the real unmarshal; TLC first confirms Exact(T, v) in the spec and then requires the projected result to equal the projected input term (classes, offsets, fold included); idempotence is checked on every junk input whose first call succeeds.",
+   ref="DESIGN.md section 4 C13",
+   note="Trusted: TLC; term projection; values drawn from the per-leaf pools of harness/typeterms.py (boundary-biased, not exhaustive)."),
 }
 NOT_BUILT = "check not built yet (build in progress; see DESIGN.md section 7 build order)"
 
